@@ -560,10 +560,21 @@ pub fn build_native(plan: &mut NativePlan, cx: &BackendCtx, dir: &Path) -> Resul
         let src = native_sources(plan, cx, None)?;
         let mut libs = vec![];
         let mut failed = None;
-        for p in &profiles {
-            let stem = format!("exprsem_{}_{}", cx.backend, if p.is_empty() { "x" } else { p });
-            match native::build(plan.lang, dir, &stem, &src, p) {
-                Ok(b) => libs.push((p.to_string(), b.lib)),
+        let lang = plan.lang;
+        let results: Vec<(String, Result<native::Built, String>)> = std::thread::scope(|sc| {
+            let hs: Vec<_> = profiles
+                .iter()
+                .map(|p| {
+                    let stem = format!("exprsem_{}_{}", cx.backend, if p.is_empty() { "x" } else { p });
+                    let src = &src;
+                    sc.spawn(move || (p.to_string(), native::build(lang, dir, &stem, src, p)))
+                })
+                .collect();
+            hs.into_iter().map(|h| h.join().unwrap()).collect()
+        });
+        for (p, r) in results {
+            match r {
+                Ok(b) => libs.push((p, b.lib)),
                 Err(e) => {
                     failed = Some(e);
                     break;
